@@ -28,6 +28,7 @@ CONSTANTS IB, PB, NF,
           FlagSets,    \* flag-bit sets callers pass (with and without 0 = present)
           Sizes,       \* region sizes in bytes
           FailPoints,  \* 0 = the allocator never fails; k = its k-th call during the operation fails
+          PokeBits,    \* flag bits the environment may OR into upper-level / recursive entries (accessed, dirty, NX ...)
           OpKinds, MaxOps, Bug, Emit, Props
 
 LB == 3
@@ -143,7 +144,9 @@ XlateWalk(m, rt, tblVA, pg, lvl, off) ==
 \* PageDirectoryTable.Map/Unmap on space pdt: point the active root's recursive entry at it, operate, restore
 AF == roots[active]
 WithPdt(m, pdt) == IF pdt = active THEN m ELSE [m EXCEPT ![AF][L].f = roots[pdt]]
-Restore(m, pdt) == IF pdt = active \/ Bug = "NoRestoreRecursive" THEN m ELSE [m EXCEPT ![AF][L].f = AF]
+Restore(m, pdt) == IF pdt = active \/ Bug = "NoRestoreRecursive" THEN m
+                   ELSE IF Bug = "RestoreRebuildsEntry" THEN [m EXCEPT ![AF][L] = [f |-> AF, fl |-> {0, 1}]]   \* loses A/D/G/NX bits
+                   ELSE [m EXCEPT ![AF][L].f = AF]
 
 --------------------------------------------------------------------------
 Res(st) == CASE st.err = "" -> "ok" [] st.err = "ENOMEM" -> "enomem" [] st.err = "FAULT" -> "panic" [] st.err = "EHUGE" -> "err:huge pages are not supported" [] OTHER -> "err:EINVAL"
@@ -218,6 +221,21 @@ DoSwitch(pdt) ==
   /\ pdt # active
   /\ Step([k |-> "switch", pdt |-> pdt, proj |-> Proj(mem)], mem, free, pdt, cursor, [op |-> "switch", pdt |-> pdt])
 
+\* the environment ORs PokeBits into the recursive entry of space pdt (lvl = 0) or into the present level-lvl entry
+\* (lvl 1..3) on the way to page pg in that space; enabled only if it changes something
+PokeLoc(pdt, pg, lvl) ==
+  IF lvl = 0 THEN <<roots[pdt], L>>
+  ELSE LET RECURSIVE Down(_, _)
+           Down(tbl, l) == IF l = lvl THEN <<tbl, pg[l]>>
+                           ELSE LET e == mem[tbl][pg[l]] IN IF Present(e) /\ e.f \in TFrames THEN Down(e.f, l + 1) ELSE <<-1, 0>>
+       IN Down(roots[pdt], 1)
+DoPoke(pdt, pg, lvl) ==
+  LET loc == PokeLoc(pdt, pg, lvl) IN
+  /\ loc[1] # -1 /\ Present(mem[loc[1]][loc[2]]) /\ ~(PokeBits \subseteq mem[loc[1]][loc[2]].fl)
+  /\ LET m2 == [mem EXCEPT ![loc[1]][loc[2]].fl = @ \cup PokeBits] IN
+     Step([k |-> "poke", proj |-> Proj(m2)], m2, free, active, cursor,
+          [op |-> "poke", pdt |-> pdt, pg |-> pg, lvl |-> lvl, bits |-> SeqOfSet(PokeBits)])
+
 RootTable(f) == [ZeroTable EXCEPT ![L] = [f |-> f, fl |-> {0, 1}]]
 Init ==
   /\ roots = <<0, 1>> /\ active = 1
@@ -236,6 +254,8 @@ Next ==
      \/ "mapregion" \in OpKinds /\ \E leaf \in Leafs, size \in Sizes, fls \in FlagSets, fail \in FailPoints : DoMapRegion(leaf, size, fls, fail)
      \/ "identity" \in OpKinds /\ \E pg \in IdPages, size \in Sizes, fls \in FlagSets, fail \in FailPoints : DoIdentity(pg, size, fls, fail)
      \/ "switch" \in OpKinds /\ \E pdt \in 1..Len(roots) : DoSwitch(pdt)
+     \/ "poke" \in OpKinds /\ \E pdt \in 1..Len(roots) : DoPoke(pdt, Temp, 0)
+     \/ "poke" \in OpKinds /\ \E pg \in OpPages, lvl \in 1..3 : DoPoke(active, pg, lvl)
 
 --------------------------------------------------------------------------
 NoMismatch == mismatch = <<>>          \* C04 as the monitor states it holds for every step of the design
@@ -250,7 +270,7 @@ TranslateAgrees ==
 
 \* the concrete tables refine the abstract translation the monitor carries
 Refines == s.trans = Proj(mem) /\ s.active = active
-RecursiveIntact == \A r \in 1..Len(roots) : mem[roots[r]][L] = [f |-> roots[r], fl |-> {0, 1}]
+RecursiveIntact == \A r \in 1..Len(roots) : mem[roots[r]][L].f = roots[r] /\ {0, 1} \subseteq mem[roots[r]][L].fl
 
 \* leg G: every generated transition into the last level is written out with the path that reaches it
 EmitTransition == (Emit /\ nops' = MaxOps) => CSVWrite("%1$s", <<ToJson([script |-> script'])>>, IOEnv.CASES)
